@@ -30,6 +30,9 @@ def cz(v, model, universe=None):
         return r.as_string() if z3.is_string_value(r) else str(r)
     if isinstance(v, VNone):
         return None
+    if type(v).__name__ == "VDyn":
+        from .dyn import concretize
+        return concretize(v, model)
     if isinstance(v, VUn):
         return {"$un": str(_ev(model, v.e))}
     if isinstance(v, VOpt):
